@@ -658,6 +658,43 @@ pub fn run(ctx: &Ctx, replay_case: Option<&Value>) -> i32 {
     ctx.set("part_d_cases", json!(rcases.len()));
     par_each(rcases, |(m, d, forward, start, pc)| check_relocated_branch(ctx, &isa, m, d, forward, start, pc));
 
+    // ---- (e) operand shapes that are no form of the ISA at all: two register suffixes, a suffix on an immediate
+    // (the table of part (a) has one suffix position per form; a parser that reads more than it stores accepts these)
+    {
+        let shapes: [&str; 12] = ["(V,x),y", "(V,x),x", "(V,y),x", "(V,y),y", "(V),y,x", "(V),y,y", "V,x,y", "V,y,x", "V,x,x", "#V,x", "#V,y", "(V,x,y)"];
+        let mut cases = vec![];
+        for m in MNEMONICS.iter() {
+            for sh in shapes.iter() {
+                for v in ["$10", "$1234", "16"] {
+                    for upper in [false, true] {
+                        let operand = sh.replace('V', v);
+                        let operand = if upper { operand.replace(",x", ",X").replace(",y", ",Y") } else { operand };
+                        cases.push((*m, *sh, format!("{} {}", m, operand)));
+                    }
+                }
+            }
+        }
+        ctx.set("part_e_cases", json!(cases.len()));
+        par_each(cases, |(m, sh, text)| {
+            ctx.eval(|| json!(text));
+            ctx.nontrivial(fnv_str(&text));
+            match run_text(&text) {
+                Err(p) => ctx.finding(Finding::new(format!("enc:panic:{}", p.site), format!("`{}` panics: {} at {}", text, p.message, p.site), case_json("enc", &text))),
+                Ok(b) => {
+                    if b.ok() {
+                        ctx.finding(Finding::new(
+                            format!("enc:accepted-illegal-shape:{}:{}", m, sh),
+                            format!("`{}` is no form of the instruction set but assembled to {}", text, hex_bytes(&b.bytes())),
+                            case_json("enc", &text),
+                        ));
+                    } else {
+                        ctx.count("e_rejected");
+                    }
+                }
+            }
+        });
+    }
+
     // ---- (c)
     let cat1 = catalogue(&isa, 1);
     let cat2 = catalogue(&isa, 2);
